@@ -292,6 +292,11 @@ public:
       if(i>0)
         strides[i-1] = arraysize;
     }
+
+    //the two padding tables were created above (extrapolateSpline) and are
+    //owned by this function; their coefficients have been copied
+    delete tables.front();
+    delete tables.back();
 	}
 
 	splinetable(splinetable&& other):
